@@ -54,9 +54,50 @@ def canon_md(md):
     return None if md is None else [canon_entry(m) for m in md]
 
 
-def tobs(t):
-    """observable content of a table (own version: metadata through vtext)"""
+ROUTES_OBS = ["tuple"] * 5 + ["by-id"] * 4 + ["json"]
+
+
+def tobs(t, route="tuple", rng=None):
+    """observable content of a table (own version: metadata through vtext).
+    route 'tuple': ids()/metadata()/matrix; 'by-id': every ID asked through the table's own lookups
+    (exists, index, metadata(id), data(id)) in random order; 'json': what to_json exports, re-read."""
     import numpy as np
+    if route == "json":
+        from biom import Table
+        t2 = Table.from_json(json.loads(t.to_json("c18")))
+        o = tobs(t2)
+        o["type"] = t.type
+        return o
+    if route == "by-id":
+        o = {"type": t.type}
+        axes = [("observation", "obs", "omd"), ("sample", "samp", "smd")]
+        if rng is not None:
+            rng.shuffle(axes)
+        for ax, kid, kmd in axes:
+            ids = [i for i in t.ids(axis=ax)]
+            has_md = t.metadata(axis=ax) is not None
+            order = list(range(len(ids)))
+            if rng is not None:
+                rng.shuffle(order)
+            ent = [None] * len(ids)
+            shown = [str(i) for i in ids]
+            for j in order:
+                # the table's own index must place the ID where ids() shows it
+                if not t.exists(ids[j], axis=ax) or t.index(ids[j], axis=ax) != j:
+                    shown[j] = "?index:" + shown[j]
+                ent[j] = canon_entry(t.metadata(ids[j], axis=ax)) if has_md else None
+            o[kid] = shown
+            o[kmd] = ent if has_md else None
+        obs_ids = list(t.ids(axis="observation"))
+        order = list(range(len(obs_ids)))
+        if rng is not None:
+            rng.shuffle(order)
+        rows = [None] * len(obs_ids)
+        for j in order:
+            rows[j] = [core.frac(x) for x in np.asarray(t.data(obs_ids[j], axis="observation", dense=True)).ravel()] \
+                if t.shape[1] > 0 else []
+        o["rows"] = rows
+        return o
     m = t.matrix_data
     dense = m.toarray() if m.shape[0] * m.shape[1] > 0 else np.zeros(m.shape)
     return {
@@ -67,6 +108,34 @@ def tobs(t):
         "smd": canon_md(t.metadata(axis="sample")),
         "type": t.type,
     }
+
+
+def pre_reads(ctx, t, rng, tags=()):
+    """reads and exports BEFORE the update (anything they cache must not survive it), in random
+    order, and a random internal layout left behind; the same reads are repeated after the update"""
+    todo = rng.sample(["by-id", "json", "dataframe", "layout", "str"], rng.randint(0, 3))
+    ref = None
+    for what in todo:
+        try:
+            if what in ("by-id", "json"):
+                ref = ref or tobs(t)
+                got = tobs(t, what, rng)
+                if got != ref:
+                    ctx.diverge({"route": what, "tuple": ref, "got": got},
+                                "views of an untouched table disagree (%s)" % what, tags)
+            elif what == "dataframe":
+                for ax in ("sample", "observation"):
+                    if t.metadata(axis=ax) is not None:
+                        t.metadata_to_dataframe(ax)
+            elif what == "layout":
+                core.poke_layout(t, rng)
+            else:
+                str(t)
+        except Exception as e:  # noqa: BLE001
+            ctx.count("pre-read %s raised %s" % (what, type(e).__name__))
+    for w in todo:
+        ctx.count("pre-read:" + w)
+    return todo
 
 
 def md_is_defaulting(t):
@@ -96,6 +165,17 @@ def gen_table(rng, quick=True):
         spec["smd"] = [{} for _ in spec["samp"]]
     elif c < 0.16 and spec["omd"] is not None:
         spec["omd"] = [dict(e) if i % 2 else {} for i, e in enumerate(spec["omd"])]
+    if rng.random() < 0.25:
+        # IDs that are extensions / case variants / blank-suffixed twins of each other, one much longer
+        for key, pre in (("samp", "S"), ("obs", "O")):
+            ids = spec[key]
+            base = ids[0]
+            twins = [base + "0", base + " ", base.lower(), base + "\n", base + "_" * 30, base + "日本語é"]
+            rng.shuffle(twins)
+            for j in range(1, len(ids)):
+                cand = twins.pop()
+                if cand not in ids:
+                    ids[j] = cand
     route = rng.choice(core.ROUTES)
     t = core.build(spec, route, rng)
     hist = rng.choice(HISTORIES)
@@ -127,7 +207,9 @@ def apply_history(rng, t, step):
 
 
 DERIVE = ["sort_order:sample", "sort_order:observation", "sort:sample", "sort:observation", "transpose",
-          "filter(inplace=False):sample", "filter(inplace=False):observation", "Table(src.metadata())", "copy"]
+          "filter(inplace=False):sample", "filter(inplace=False):observation", "Table(src.metadata())", "copy",
+          "partition:sample", "partition:observation", "collapse:sample", "collapse:observation",
+          "concat:sample", "concat:observation", "merge"]
 
 
 def derive(rng, src, how):
@@ -141,6 +223,11 @@ def derive(rng, src, how):
     if kind == "Table(src.metadata())":
         return Table(src.matrix_data.copy(), src.ids(axis="observation"), src.ids(),
                      src.metadata(axis="observation"), src.metadata(), type=src.type)
+    if kind in ("partition", "collapse", "concat", "merge"):
+        try:
+            return derive_multi(rng, src, kind, ax)
+        except Exception:  # noqa: BLE001  (route not applicable to this table: fall back)
+            return derive(rng, src, "sort_order:" + (ax or "sample"))
     ids = list(src.ids(axis=ax))
     if kind == "sort_order":
         rng.shuffle(ids)
@@ -151,6 +238,25 @@ def derive(rng, src, how):
         keep = set(rng.sample(ids, rng.randint(max(1, len(ids) - 1), len(ids)))) if ids else set()
         return src.filter(keep, axis=ax, inplace=False)
     raise ValueError(how)
+
+
+def derive_multi(rng, src, kind, ax):
+    """derivations that carry the metadata of (one axis of) the source into a new table"""
+    if kind == "partition":
+        ids = sorted(str(i) for i in src.ids(axis=ax))
+        pivot = ids[len(ids) // 2]
+        parts = list(src.partition(lambda i, m: str(i) < pivot, axis=ax))
+        return parts[rng.randrange(len(parts))][1]
+    if kind == "collapse":
+        return src.collapse(lambda i, m: "g%d" % (len(str(i)) % 2), axis=ax, norm=False)
+    other = src.copy()
+    if kind == "concat":
+        other.update_ids({i: "%s_cc" % i for i in other.ids(axis=ax)}, axis=ax, inplace=True)
+        return src.concat([other], axis=ax)
+    if kind == "merge":
+        other.update_ids({i: "%s_mm" % i for i in other.ids()}, axis="sample", inplace=True)
+        return src.merge(other)
+    raise ValueError(kind)
 
 
 def gen_live(rng, src):
@@ -171,9 +277,10 @@ def snap_others(others):
     return [{"how": lab, "before": tobs(o)} for lab, o in others]
 
 
-def finish_others(snaps, others):
+def finish_others(snaps, others, rng=None):
     for s_, (lab, o) in zip(snaps, others):
-        s_["after"] = tobs(o)
+        # the other tables must also still answer through their own lookups
+        s_["after"] = tobs(o, rng.choice(["tuple", "by-id"]) if rng is not None else "tuple", rng)
     return snaps
 
 
@@ -202,7 +309,11 @@ def gen_mapping(rng, t, axis):
         chosen = list(ids)
     extra = []
     if mode in ("superset", "disjoint", "mixed"):
-        extra = rng.sample(["zz1", "zz2", "S?", "O?", ""], rng.randint(1, 3))
+        tricky = core.tricky_unknown_ids(ids)
+        longest = max([len(i) for i in ids], default=1)
+        pool_x = ["zz1", "zz2", "S?", "O?", "", "L" * (longest + 7)] + tricky + [i + "\n" for i in ids[:1]] + \
+                 [i + "é" for i in ids[:1]]
+        extra = rng.sample(pool_x, min(len(pool_x), rng.randint(1, 4)))
         extra = [e for e in extra if e not in ids]
     keys_here = set()
     md = t.metadata(axis=axis) if axis in ("sample", "observation") else None
@@ -226,17 +337,26 @@ def check_add(ctx, t, m, axis, tags=(), others=()):
     snaps = snap_others(others)
     mapping = [[i, canon_entry(e)] for i, e in m.items()]
     arg = copy.deepcopy(m)
+    if ctx.rng.random() < 0.2:
+        from biom.parse import MetadataMap
+        arg = MetadataMap(arg)                      # what the command hands over
+    elif ctx.rng.random() < 0.2:
+        arg = {i: defaultdict(lambda: None, e) for i, e in arg.items()}
+    pre_reads(ctx, t, ctx.rng, tags)
     err = None
     try:
-        r = t.add_metadata(arg, axis=axis)
+        with error_profile(ctx):
+            r = t.add_metadata(arg, axis) if ctx.rng.random() < 0.3 else t.add_metadata(arg, axis=axis)
         if r is not None:
             ctx.diverge({"axis": axis}, "add_metadata returned a value", tags)
     except Exception as e:  # noqa: BLE001
         err = core.err_name(e)
-    after = tobs(t)
+    route = ctx.rng.choice(ROUTES_OBS)
+    ctx.count("observed-through:" + route)
+    after = tobs(t, route, ctx.rng)
     case = {"op": "add", "table": before, "mapping": mapping, "axis": axis, "after": after, "error": err}
     if others:
-        case["others"] = finish_others(snaps, others)
+        case["others"] = finish_others(snaps, others, ctx.rng)
     overlap = sum(1 for i, _ in mapping if i in (before["samp"] if axis == "sample" else before["obs"]))
     ctx.case(case, nontrivial=(len(mapping) > 0))
     r = ctx.driver.ask(case)
@@ -253,21 +373,36 @@ def check_add(ctx, t, m, axis, tags=(), others=()):
 def check_del(ctx, t, keys, axis, tags=(), others=()):
     before = tobs(t)
     snaps = snap_others(others)
+    pre_reads(ctx, t, ctx.rng, tags)
     err = None
     try:
-        if keys == "default":
-            t.del_metadata(axis=axis)
-            kk = None
-        else:
-            t.del_metadata(keys=copy.deepcopy(keys), axis=axis)
-            kk = keys
+        with error_profile(ctx):
+            if keys == "default":
+                t.del_metadata(axis=axis)
+                kk = None
+            else:
+                # the key collection as callers write it: list, tuple, set; a bare string is iterated
+                # character by character by the code (keys = its characters)
+                arg = copy.deepcopy(keys)
+                c = ctx.rng.random()
+                if isinstance(arg, list) and c < 0.15:
+                    arg = tuple(arg)
+                elif isinstance(arg, list) and c < 0.3:
+                    arg = set(arg)
+                if ctx.rng.random() < 0.3:
+                    t.del_metadata(arg, axis)
+                else:
+                    t.del_metadata(keys=arg, axis=axis)
+                kk = list(keys) if isinstance(keys, str) else keys
     except Exception as e:  # noqa: BLE001
         err = core.err_name(e)
-        kk = None if keys == "default" else keys
-    after = tobs(t)
+        kk = None if keys == "default" else (list(keys) if isinstance(keys, str) else keys)
+    route = ctx.rng.choice(ROUTES_OBS)
+    ctx.count("observed-through:" + route)
+    after = tobs(t, route, ctx.rng)
     case = {"op": "del", "table": before, "keys": kk, "axis": axis, "after": after, "error": err}
     if others:
-        case["others"] = finish_others(snaps, others)
+        case["others"] = finish_others(snaps, others, ctx.rng)
     ctx.case(case, nontrivial=(before["omd"] is not None or before["smd"] is not None))
     r = ctx.driver.ask(case)
     ctx.count("del:axis=%s,keys=%s" % (axis, "None" if kk is None else ("[]" if not kk else "some")))
@@ -277,6 +412,28 @@ def check_del(ctx, t, keys, axis, tags=(), others=()):
                 ctx.count("del:collapsed-to-None")
     report(ctx, case, r, ("del",) + tuple(tags))
     return r
+
+
+class error_profile:
+    """a share of the calls runs under a non-default error profile (nothing here may react to it)"""
+
+    def __init__(self, ctx):
+        self.cm = None
+        c = ctx.rng.random()
+        if c < 0.2:
+            import biom.err as E
+            kw = ctx.rng.choice([{"empty": "raise"}, {"all": "raise"}, {"empty": "warn"}, {"all": "print"}])
+            self.cm = E.errstate(**kw)
+            ctx.count("error-profile:" + "/".join("%s=%s" % kv for kv in kw.items()))
+
+    def __enter__(self):
+        if self.cm is not None:
+            self.cm.__enter__()
+
+    def __exit__(self, *a):
+        if self.cm is not None:
+            return self.cm.__exit__(*a)
+        return False
 
 
 def report(ctx, case, r, tags):
@@ -428,14 +585,25 @@ def check_parse(ctx, gram, lines, opts, header, proc, how="list", tags=()):
     from biom.parse import MetadataMap
     fns = py_fns()
     process_fns = {k: fns[c] for k, c in proc}
+    hdr_arg = None
+    if header is not None:
+        hdr_arg = tuple(header) if (header and ctx.rng.random() < 0.3) else list(header)
     kw = dict(strip_quotes=opts["strip_quotes"], suppress_stripping=opts["suppress"],
-              header=(list(header) if header is not None else None),
+              header=hdr_arg,
               process_fns=(process_fns if (process_fns or how != "list") else None))
+    if opts["strip_quotes"] and not opts["suppress"] and ctx.rng.random() < 0.5:
+        # the defaults left unsaid, as most callers write the call
+        del kw["strip_quotes"], kw["suppress_stripping"]
+        if kw["header"] is None and ctx.rng.random() < 0.5:
+            del kw["header"]
+        if kw["process_fns"] is None:
+            del kw["process_fns"]
     res = None
     path = None
     try:
         if how == "list":
-            src = list(lines)
+            c = ctx.rng.random()
+            src = list(lines) if c < 0.6 else tuple(lines) if c < 0.8 else iter(list(lines))
         else:
             os.makedirs(TMP, exist_ok=True)
             path = os.path.join(TMP, "map_%d.txt" % os.getpid())
@@ -575,7 +743,7 @@ def gen_cli_case(rng, t, quick=True, friendly=False):
     facts = set()
     for ax in axes:
         colkinds = [(nm, kd) for nm, kd in gen_colkinds(rng) if "," not in nm]
-        ids = [str(i) for i in t.ids(axis=ax) if '"' not in str(i)]
+        ids = [str(i) for i in t.ids(axis=ax) if '"' not in str(i) and "\n" not in str(i)]
         mode = rng.choice(["all", "all", "subset", "superset", "mixed"])
         if friendly:
             colkinds = [(nm, kd if kd in ("text", "int", "float") else "text") for nm, kd in colkinds
@@ -768,6 +936,17 @@ def fixed_cases(ctx):
         check_del(ctx, mk(None, smd), ["barcode", "env"], ax, ("fixed",))
     check_del(ctx, mk(omd, smd), "default", "whole", ("fixed",))
     check_del(ctx, mk([{}, {}], smd), [], "whole", ("fixed",))
+    # a bare string is iterated character by character: 'ab' names the keys 'a' and 'b', not 'ab'
+    abmd = [{"a": 1, "b": 2, "ab": 3}, {"a": 4, "ab": 5}, {"b": 6}]
+    for ax in ("sample", "whole", "observation"):
+        check_del(ctx, mk(omd, abmd), "ab", ax, ("fixed", "bare-string"))
+        check_del(ctx, mk(omd, abmd), ("ab",), ax, ("fixed",))
+    # an axis without IDs
+    for shape, o_ids, s_ids in (((0, 3), [], ["S1", "S2", "S3"]), ((2, 0), ["O1", "O2"], [])):
+        for ax in ("sample", "observation"):
+            e = Table(np.zeros(shape), o_ids, s_ids)
+            check_add(ctx, e, {"S1": {"k": 1}, "O1": {"k": 2}, "zz": {}}, ax, ("fixed", "empty-axis"))
+            check_del(ctx, e, ["k"], "whole", ("fixed", "empty-axis"))
     # mapping files: the documented shape, header given late, padded rows, quotes, duplicate ids
     fixed_files = [
         (["#SampleID\tBarcode\tEnv\n", "# a comment\n", "\n", "S1\tAAA\tgut\n", "S2\tCCC\n", 'S3\t"GGG"\t skin \tx\n'], None, []),
@@ -781,6 +960,80 @@ def fixed_cases(ctx):
     for lines, header, proc in fixed_files:
         for opts in ({"strip_quotes": True, "suppress": False}, {"strip_quotes": False, "suppress": True}):
             check_parse(ctx, None, lines, opts, header, proc, "list", tags=("fixed",))
+
+
+def run_wide(ctx, n):
+    """a few large cases: >= 64 IDs on an axis, mapping in non-axis order; mapping files >= 64 KiB"""
+    rng = ctx.rng
+    for i in range(n):
+        ax = ["sample", "observation"][i % 2]
+        spec = core.wide_spec(rng, axis=ax, md=(i % 4 < 2))
+        t = core.build(spec, rng.choice(["dense", "csr", "csc"]), rng)
+        src = t
+        if i % 3 == 0:
+            t = derive(rng, src, "sort_order:" + ax)
+        m, mode, _ = gen_mapping(rng, t, ax)
+        check_add(ctx, t, m, ax, ("wide",), [("source", src)] if t is not src else [])
+        ks = sorted({k for e in (t.metadata(axis=ax) or []) for k in e})[:2]
+        check_del(ctx, t, ks, rng.choice([ax, "whole"]), ("wide",), [("source", src)] if t is not src else [])
+        ctx.count("wide:axis=%s,n=%d" % (ax, len(t.ids(axis=ax))))
+        # the command's worker on a file naming every ID, rows in shuffled order
+        ids = [str(x) for x in src.ids(axis=ax)]
+        rng.shuffle(ids)
+        gram = [{"k": "header", "names": ["ID", "A", "pH"], "trail": "\n"}]
+        for rid in ids + ["S64x", "O1000"]:
+            gram.append({"k": "row", "fields": [deco(rng, rid, WS_FILE, 0.1), deco(rng, rng.choice(TEXTS), WS_FILE),
+                                                deco(rng, rng.choice(FLOATS_OK), WS_FILE, 0.1)]})
+            gram[-1]["fields"][-1]["post"] += "\n"
+        files = {ax: {"gram": gram, "lines": [render_line(g) for g in gram]}}
+        opts = {"sc": None, "pipe": None, "ints": None, "floats": "pH", "sample_header": None, "obs_header": None}
+        check_cli_worker(ctx, src.copy(), files, opts, {"wide"}, ("wide",))
+    for i in range(max(1, n // 3)):
+        # a file of >= 64 KiB: many rows, one very long field
+        big = "x" * rng.choice([65536, 70001])
+        gram = [{"k": "header", "names": ["ID", "A", "B"], "trail": "\n"}]
+        for j in range(rng.choice([300, 400])):
+            gram.append({"k": "row", "fields": [deco(rng, "S%d" % j, WS_FILE, 0.1),
+                                                deco(rng, big if j == 7 else rng.choice(INTS), WS_FILE),
+                                                deco(rng, "v%d;w" % j, WS_FILE, 0.1)]})
+            if j % 5 == 4:
+                gram[-1]["fields"] = gram[-1]["fields"][:2]
+            if gram[-1]["fields"][-1]["c"] == "":
+                gram[-1]["fields"][-1]["c"] = "t"
+            gram[-1]["fields"][-1]["post"] += "\n"
+        lines = [render_line(g) for g in gram]
+        ctx.count("wide:file KiB=%d" % (sum(len(x) for x in lines) // 1024))
+        check_parse(ctx, gram, lines, {"strip_quotes": True, "suppress": False}, None, [("A", "int"), ("B", "sc")],
+                    ["path", "fileobj", "list"][i % 3], ("wide",))
+
+
+DEFAULT_PROBE = (["#ID\tA\tB\n", "S1\t1\tx;y\n", "S2\t 2 \t\"q\"\n"], None, [])
+
+
+def state_cases(ctx, when):
+    """process-level state: unusual optional arguments first, then the plain call; the plain call is
+    repeated at the end of the run and must give the same answer"""
+    lines, header, proc = DEFAULT_PROBE
+    if when == "early":
+        # custom conversions under the names the command uses, other stripping modes, an override
+        check_parse(ctx, None, lines, {"strip_quotes": False, "suppress": True}, ["ID", "B", "A"],
+                    [("A", "rev"), ("B", "pipe")], "list", ("state",))
+        check_parse(ctx, None, lines, {"strip_quotes": True, "suppress": True}, None, [("A", "float"), ("B", "rev")],
+                    "path", ("state",))
+        import numpy as np
+        from biom import Table
+        t = Table(np.ones((1, 2)), ["O1"], ["S1", "S2"])
+        files = {"sample": {"gram": None, "lines": lines}}
+        check_cli_worker(ctx, t, files, {"sc": "B", "pipe": None, "ints": "A", "floats": None,
+                                         "sample_header": "ID,B,A", "obs_header": None}, {"state"}, ("state",))
+    r = check_parse(ctx, None, lines, {"strip_quotes": True, "suppress": False}, header, proc, "list", ("state", when))
+    import numpy as np
+    from biom import Table
+    t = Table(np.ones((1, 2)), ["O1"], ["S1", "S2"])
+    check_cli_worker(ctx, t, {"sample": {"gram": None, "lines": lines}},
+                     {"sc": None, "pipe": None, "ints": None, "floats": None, "sample_header": None,
+                      "obs_header": None}, {"state"}, ("state", when))
+    return json.dumps(r["model"], sort_keys=True)
 
 
 # ----------------------------------------------------------------------------- run
@@ -805,6 +1058,7 @@ def run(ctx):
                    "literals whose value is exact in binary64"]
     quick = ctx.quick()
     try:
+        first = state_cases(ctx, "early")
         fixed_cases(ctx)
         n_tab = 1300 if quick else 1800
         for i in range(n_tab):
@@ -889,6 +1143,9 @@ def run(ctx):
                 out_json = rng.random() < (0.2 if friendly else 0.7)
                 in_fmt = "json" if (rng.random() < 0.7 or not hdf5_faithful(t)) else "hdf5"
                 check_cli_command(ctx, t.copy(), files, opts, facts, out_json, in_fmt, (route, hist))
+        run_wide(ctx, 6 if quick else 24)
+        if state_cases(ctx, "late") != first:
+            ctx.diverge({"probe": DEFAULT_PROBE[0]}, "the default call answers differently at the end of the run")
     finally:
         # only this process's scratch (thorough runs are sharded over worker processes)
         shutil.rmtree(os.path.join(TMP, "cli_%d" % os.getpid()), ignore_errors=True)
